@@ -132,6 +132,33 @@ def run(res, tier):
                                  'supply rate (cross term, loop ended after %d iteration(s))' % int(reg.n_iter_), lambda_min=lam,
                             slack=slack, Xi=Xi.tolist(), n_states=ns, n_inputs=nu, estimator=repr(reg),
                             stop_reason=str(reg.stop_reason_), X=X.tolist()))
+    # the default supply rate (L2 gain at most one) with picos_eps=0: with the default strictness margin the first problem is
+    # infeasible for it (recorded finding); without the margin both problems run and the returned pair must certify the default
+    for h in range(6 if tier == 'quick' else 24):
+        ns = 1 + h % 2; nu = 1 + (h // 2) % 2
+        X, _, _ = lmi.linear_data(rng, ns, nu, kind=['stable', 'unstable', 'marginal'][h % 3])
+        Xi = np.block([[np.eye(ns), np.zeros((ns, nu))], [np.zeros((nu, ns)), -np.eye(nu)]])
+        reg = L.LmiEdmdDissipativityConstr(alpha=0.0, supply_rate=None, max_iter=1 + h % 3, picos_eps=0, solver_params=lmi.SOLVER)
+        try:
+            reg.fit(X, n_inputs=nu, episode_feature=True)
+        except Exception:  # noqa
+            dist['fit_error'] = dist.get('fit_error', 0) + 1
+            continue
+        A, B = lmi.ab(reg, ns)
+        if not (np.any(A) or np.any(B)):
+            dist['default_rate_no_margin_zero'] = dist.get('default_rate_no_margin_zero', 0) + 1
+            continue
+        dist['default_rate_no_margin'] = dist.get('default_rate_no_margin', 0) + 1
+        P = np.asarray(reg.P_)
+        M = np.block([[P - Xi[:ns, :ns], -Xi[:ns, ns:], A.T @ P], [-Xi[:ns, ns:].T, -Xi[ns:, ns:], B.T @ P], [P @ A, P @ B, P]])
+        lam = float(np.min(np.linalg.eigvalsh((M + M.T) / 2)))
+        slack = lmi.simulate_dissipation(rng, A, B, (P + P.T) / 2, Xi)
+        tolp = 1e-4 * max(1.0, float(np.max(np.abs(P))))
+        if lam < -tolp or slack < -tolp:
+            bad.append(dict(what='returned (U, P_) violates the dissipativity LMI / the dissipation inequality for the default supply '
+                                 'rate (picos_eps=0, loop ended after %d iteration(s))' % int(reg.n_iter_), lambda_min=lam,
+                            slack=slack, Xi=Xi.tolist(), n_states=ns, n_inputs=nu, estimator=repr(reg),
+                            stop_reason=str(reg.stop_reason_), X=X.tolist()))
     # badly scaled data: the solver may fail numerically.  A fit that completes must still not silently return the
     # all-zero matrix when a strictly feasible model exists (a fit that raises is a refusal, not a result)
     for h in range(9 if tier == 'quick' else 36):
